@@ -433,6 +433,11 @@ fn js_field(field: &str) -> String {
     format!("_json->'$.{}'", field)
 }
 
+//a float is always written with an exponent: without it, a large float would be read as an integer by the SQL engine
+fn float_literal(f: &f64) -> String {
+    format!("{:e}", f)
+}
+
 //the SQL value of the field: aggregate functions must compare numbers, not their JSON text
 fn js_value(field: &str) -> String {
     format!("_json->>'$.{}'", field)
@@ -492,7 +497,7 @@ fn get_fields(
                     let default = match val {
                         ParamValue::Boolean(b) => b.to_string(),
                         ParamValue::Integer(i) => i.to_string(),
-                        ParamValue::Float(f) => f.to_string(),
+                        ParamValue::Float(f) => float_literal(f),
                         ParamValue::String(s) => prepared_query.add_param(String::from(s), true),
                         ParamValue::Binary(s) => prepared_query.add_param(String::from(s), true),
                         ParamValue::Null => unreachable!(),
@@ -524,7 +529,7 @@ fn get_fields(
                     let default = match val {
                         ParamValue::Boolean(b) => b.to_string(),
                         ParamValue::Integer(i) => i.to_string(),
-                        ParamValue::Float(f) => f.to_string(),
+                        ParamValue::Float(f) => float_literal(f),
                         ParamValue::String(s) => prepared_query.add_param(String::from(s), true),
                         ParamValue::Binary(s) => prepared_query.add_param(String::from(s), true),
                         ParamValue::Null => unreachable!(),
@@ -650,7 +655,7 @@ fn get_where_filters(params: &EntityParams, prepared_query: &mut SingleQuery, t:
                 FieldValue::Value(val) => match val {
                     ParamValue::Boolean(bool) => bool.to_string(),
                     ParamValue::Integer(i) => i.to_string(),
-                    ParamValue::Float(f) => f.to_string(),
+                    ParamValue::Float(f) => float_literal(f),
                     ParamValue::String(s) => prepared_query.add_param(String::from(s), true),
                     ParamValue::Binary(s) => prepared_query.add_param(String::from(s), true),
                     ParamValue::Null => {
@@ -715,7 +720,9 @@ fn get_where_filters(params: &EntityParams, prepared_query: &mut SingleQuery, t:
                                     tab(&mut q, t + 1);
                                     q.push_str(&format!(
                                         "WHEN {} {} {} THEN ",
-                                        v, operation, &value
+                                        float_literal(v),
+                                        operation,
+                                        &value
                                     ));
                                 }
                                 //text is never written in the statement, it is bound as a parameter
@@ -804,7 +811,7 @@ fn get_where_filters(params: &EntityParams, prepared_query: &mut SingleQuery, t:
                 FieldValue::Value(val) => match val {
                     ParamValue::Boolean(bool) => bool.to_string(),
                     ParamValue::Integer(i) => i.to_string(),
-                    ParamValue::Float(f) => f.to_string(),
+                    ParamValue::Float(f) => float_literal(f),
                     ParamValue::String(s) => prepared_query.add_param(String::from(s), true),
                     ParamValue::Binary(s) => prepared_query.add_param(String::from(s), true),
                     ParamValue::Null => {
@@ -848,7 +855,7 @@ fn get_having_filters(params: &EntityParams, prepared_query: &mut SingleQuery, t
             FieldValue::Value(val) => match val {
                 ParamValue::Boolean(bool) => bool.to_string(),
                 ParamValue::Integer(i) => i.to_string(),
-                ParamValue::Float(f) => f.to_string(),
+                ParamValue::Float(f) => float_literal(f),
                 ParamValue::String(s) => prepared_query.add_param(String::from(s), true),
                 ParamValue::Binary(s) => prepared_query.add_param(String::from(s), true),
                 ParamValue::Null => {
@@ -985,7 +992,7 @@ pub fn get_paging(params: &EntityParams, prepared_query: &mut SingleQuery) -> St
                 FieldValue::Value(val) => match val {
                     ParamValue::Boolean(bool) => bool.to_string(),
                     ParamValue::Integer(i) => i.to_string(),
-                    ParamValue::Float(f) => f.to_string(),
+                    ParamValue::Float(f) => float_literal(f),
                     ParamValue::String(s) => {
                         paging_string(s, ord.field.is_system, &ord.field.field_type, prepared_query)
                     }
@@ -1015,7 +1022,7 @@ pub fn get_paging(params: &EntityParams, prepared_query: &mut SingleQuery) -> St
             FieldValue::Value(val) => match val {
                 ParamValue::Boolean(bool) => bool.to_string(),
                 ParamValue::Integer(i) => i.to_string(),
-                ParamValue::Float(f) => f.to_string(),
+                ParamValue::Float(f) => float_literal(f),
                 ParamValue::String(s) => {
                     paging_string(s, ord.field.is_system, &ord.field.field_type, prepared_query)
                 }
